@@ -147,6 +147,7 @@ struct Tally {
     operations_run: u64,
     operations_clean: u64,
     unrepresentable: u64,
+    unrepresentable_why: BTreeMap<String, u64>,
     duplicates: u64,
     agreed_valid: u64,
     agreed_invalid: u64,
@@ -171,7 +172,7 @@ impl<'a> Judge<'a> {
         Judge {
             cx,
             seen: Mutex::new(HashSet::new()),
-            tally: Mutex::new(Tally { disagreements: BTreeMap::new(), by_rule: BTreeMap::new(), by_operator: BTreeMap::new(), built_ok: 0, exercised_clean: 0, operations_run: 0, operations_clean: 0, unrepresentable: 0, duplicates: 0, agreed_valid: 0, agreed_invalid: 0 }),
+            tally: Mutex::new(Tally { disagreements: BTreeMap::new(), by_rule: BTreeMap::new(), by_operator: BTreeMap::new(), built_ok: 0, exercised_clean: 0, operations_run: 0, operations_clean: 0, unrepresentable: 0, unrepresentable_why: BTreeMap::new(), duplicates: 0, agreed_valid: 0, agreed_invalid: 0 }),
         }
     }
 
@@ -203,8 +204,15 @@ impl<'a> Judge<'a> {
         let rule0 = obs.reference.first().map(|e| e.rule);
         // column of the operator table: 0 agreed valid, 1 agreed invalid, 2 accepts invalid, 3 rejects valid
         let col = match (&obs.built, rule0) {
-            (Built::Unrepresentable(_), _) => {
-                self.tally.lock().unwrap().unrepresentable += 1;
+            (Built::Unrepresentable(why), _) => {
+                let mut t = self.tally.lock().unwrap();
+                t.unrepresentable += 1;
+                // keep the reason, drop the names
+                let kind = match why.split_once(": ") {
+                    Some((_, tail)) if why.contains("twice") || why.starts_with("duplicate") => tail.to_string(),
+                    _ => why.clone(),
+                };
+                *t.unrepresentable_why.entry(kind).or_insert(0) += 1;
                 return;
             }
             (Built::Panic(p), _) => {
@@ -348,7 +356,8 @@ fn run(cx: &Cx) {
     let max_edits: u32 = if quick { 1 } else { 2 };
     let ops_seen: Mutex<BTreeMap<&'static str, u64>> = Mutex::new(BTreeMap::new());
     let st2 = explore(
-        &ExploreCfg::bounds([max_edits, 0, 0, 0]),
+        // sequential: two operators can produce the same type system, and the one met first is the one it is attributed to
+        &ExploreCfg { parallel: false, ..ExploreCfg::bounds([max_edits, 0, 0, 0]) },
         &|ch: &mut Chooser| {
             let xi = ch.any("exemplar", ex.len());
             let mut s = ex[xi].1.clone();
@@ -398,7 +407,7 @@ fn run(cx: &Cx) {
     cx.extra("small_scope", json!({"choice_sequences": {"all_field_types_pass": small_stats[0].1, "decorations_pass": small_stats[1].1}, "max_definitions": scfg.max_defs, "types_exhaustive_up_to_definitions": exh_defs, "decoration_budget": {"up_to_3_definitions": scfg.budget[0], "4_definitions": scfg.budget[1], "5_definitions": scfg.budget[2]}}));
     cx.extra("exemplar_edits", json!({"choice_sequences": st2.executions, "max_edits": max_edits, "single_edits_per_operator": *ops_seen.lock().unwrap()}));
     cx.extra("duplicate_type_systems_skipped", json!(t.duplicates));
-    cx.extra("unrepresentable_skipped", json!(t.unrepresentable));
+    cx.extra("unrepresentable_skipped", json!({"cases": t.unrepresentable, "why": t.unrepresentable_why}));
     cx.extra("agreed_valid", json!(t.agreed_valid));
     cx.extra("agreed_invalid", json!(t.agreed_invalid));
     cx.extra("built", json!({"schemas": t.built_ok, "exercised_without_problem": t.exercised_clean, "operations_run": t.operations_run, "operations_answered_without_errors": t.operations_clean}));
